@@ -469,14 +469,6 @@ def run_grad(case):
         _raise_if(v)
     n = 0
     err = 0.0
-    # batch of points
-    wit = _point(model, req, 'gradient_logpdf', X if d > 1 else X[:, 0], h=h, form='mat')
-    G = _call(wit, prior.gradient_logpdf, X if d > 1 else X[:, 0], stepsize=step)
-    _expect_shape(G, (len(X), d), 'gradient_logpdf:batch-input', {'req': req, 'witness': wit})
-    for x, g in zip(X, np.asarray(G, dtype=float).reshape(len(X), d)):
-        w1 = _point(model, req, 'gradient_logpdf', [x] if d > 1 else [x[0]], h=h, form='mat')
-        err = max(err, _cmp_grad(model, req, x, g, '%s:derivative-mismatch' % cls, w1, h))
-        n += 1
     # single points in point form
     for x in X[:case.get('n_single', 1)]:
         inp = np.array(x) if d > 1 else float(x[0])
@@ -484,6 +476,14 @@ def run_grad(case):
         g = _call(wit, prior.gradient_logpdf, inp, stepsize=step)
         _expect_shape(g, (d,), 'gradient_logpdf:point-input', {'req': req, 'witness': wit})
         err = max(err, _cmp_grad(model, req, x, g, '%s:derivative-mismatch' % cls, wit, h))
+        n += 1
+    # batch of points
+    wit = _point(model, req, 'gradient_logpdf', X if d > 1 else X[:, 0], h=h, form='mat')
+    G = _call(wit, prior.gradient_logpdf, X if d > 1 else X[:, 0], stepsize=step)
+    _expect_shape(G, (len(X), d), 'gradient_logpdf:batch-input', {'req': req, 'witness': wit})
+    for x, g in zip(X, np.asarray(G, dtype=float).reshape(len(X), d)):
+        w1 = _point(model, req, 'gradient_logpdf', [x] if d > 1 else [x[0]], h=h, form='mat')
+        err = max(err, _cmp_grad(model, req, x, g, '%s:derivative-mismatch' % cls, w1, h))
         n += 1
     # integer-typed evaluation points (python ints): same points, same derivative
     XI = X[np.all(X == np.round(X), axis=1)][:2]
@@ -494,8 +494,8 @@ def run_grad(case):
         _expect_shape(g, (d,), 'gradient_logpdf:integer-point-input', {'req': req, 'witness': wit})
         err = max(err, _cmp_grad(model, req, x, g, 'integer-typed-point', wit, h))
         n += 1
-    bucket = 'grad_cases_maxerr_lt_1e-8' if err < 1e-8 else 'grad_cases_maxerr_lt_1e-7' if err < 1e-7 else \
-        'grad_cases_maxerr_ge_1e-7'
+    bucket = 'grad_cases_maxerr_' + next((b for t, b in ((1e-8, 'lt_1e-8'), (1e-7, 'lt_1e-7'), (5e-7, 'lt_5e-7'),
+                                                          (1e-6, 'lt_1e-6')) if err < t), 'ge_1e-6')
     r = ok(outcome=digest(np.round(np.asarray(G, dtype=float), 6)), grad_points=n, grad_int_points=len(XI),
            **{bucket: 1})
     r.update(evals=n, distinct=n)
@@ -672,7 +672,7 @@ def run(ctx):
                 if q:
                     Vg = {1: Vfin, 2: [0.75, 1.0, 1.5, 2.0], 3: [1.0, 1.5, 2.0]}[d]
                 else:
-                    Vg = {1: Vfin, 2: [0.75, 1.0, 1.25, 1.5, 2.0, 3.0], 3: [1.0, 1.25, 1.5, 2.0]}[d]
+                    Vg = {1: Vfin, 2: [0.75, 1.0, 1.25, 1.5, 2.0], 3: [1.0, 1.5, 2.0]}[d]
                 hs = [None]
                 if req is None:
                     hs += ['list'] if q else [1e-4, 'list', 'array']
